@@ -728,6 +728,11 @@ def case_vmesh(ctx, case):
             # the chunked path skips chunks with a single voxel / flat chunks; a sparse grid can leave nothing to mesh
             ctx.count('vmesh_chunked_nothing_to_mesh', True)
             return
+        if chunked and kw.get('pad_chunks') is False and isinstance(e, ValueError) and 'Surface level must be within volume data range' in str(e):
+            # non-default pad_chunks=False: a chunk that is completely filled (interior of a blob) is handed to marching cubes without
+            # padding and skimage refuses it; no surface is produced, so the clause has nothing to say (recorded in the notes)
+            ctx.count('vmesh_chunked_unpadded_full_chunk_raises', True)
+            return
         ctx.oracle(False, f'navis.mesh(VoxelNeuron, {kw}) raises {type(e).__name__}: {str(e)[:120]}', case)
         return
     V = np.asarray(m.vertices, dtype=float)
@@ -1342,6 +1347,9 @@ def run(ctx):
     ctx.notes.append('observation (outside the statement): make_dotprops(VoxelNeuron) returns points = voxels * units without the neuron\'s '
                      '`offset` (histogram voxdots_points); tangents and alpha are unaffected (theorem scatter_invariances), the statement does '
                      'not fix the position of these points, so this is recorded, not reported')
+    ctx.notes.append('not counted (no surface is produced, the clause is silent): voxels2mesh(chunk_size=n, pad_chunks=False) raises `Surface level '
+                     'must be within volume data range` when a chunk is completely filled; the chunked path raises `need at least one array` '
+                     'when every chunk holds a single voxel')
     ctx.notes.append('not counted as defects: navis.mesh(ndarray) / navis.skeletonize(ndarray) raise AttributeError (`x.ndims`, `x.points`); '
                      'make_dotprops on an empty / all-NaN cloud raises ValueError; recalculate_tangents(k=1) fails a reshape. '
                      'neuron2tangents returns child − parent (pointing parent→child) although its docstring says child→parent: tangents are '
